@@ -13,7 +13,7 @@ CLAUSES = {
     "velocity": "velocity()/variables[u,v] equal the location-addressed bilinear x linear-in-depth interpolation with zero land faces",
     "scalar": "scalar forcing is the value of the particle's own cell at one of the two bracketing levels",
     "linear-exact": "a field a_k + b x + c y is reproduced exactly (and linear in depth over a flat bottom)",
-    "packed": "packed storage (scale_factor; offset for scalars) gives the scaled values",
+    "packed": "packed storage (scale_factor; offset for scalars) gives the scaled values, with the packing attributes of the file the frame comes from",
 }
 BOUNDS = {
     "quick": "global 7x6 rho grid, N=2 levels (N=3 on one subgrid), legal subgrids {full, [1,6,1,5], [2,6,1,4], [1,5,2,5]}, 1 particle anywhere in the valid region incl. cell edges, any depth (one scenario with a second particle in another column and depth); all node values, masks, level depths, scale factors symbolic",
@@ -39,6 +39,7 @@ def scenarios(tier):
         # wide subgrid (7 x 4 cells), both particles in symbolic cells of the valid region: per-particle bookkeeping keyed on cell indices
         out.append(dict(name="interp-N2-two-particles-wide", fn="interp", params=dict(N=2, sub=[1, 8, 1, 5], packed=False, two="cells", LM=(9, 6)), cost=60))
     out.append(dict(name="packed", fn="interp", params=dict(N=2, sub=[1, 6, 1, 5], packed=True), cost=20))
+    out.append(dict(name="packed-second-file", fn="interp", params=dict(N=2, sub=[1, 6, 1, 5], packed=True, twofiles=True), cost=25))
     out.append(dict(name="linear", fn="linear", params=dict(N=2, sub=[1, 6, 1, 5]), cost=10))
     return out
 
@@ -91,13 +92,25 @@ def _setup(W, p, fields=None, mask_all_sea=False):
     if p.get("packed"):
         su, sv, sT, oT = W.real("scale_u", W.frac(1, 1000), 1), W.real("scale_v", W.frac(1, 1000), 1), W.real("scale_T", W.frac(1, 1000), 1), W.real("offset_T", -5, 5)
         scale, offs = dict(u=su, v=sv, temp=sT), dict(u=0, v=0, temp=oT)
-    fs = romsfile.forcing_vars([T0 - romsfile.REFSEC, T0 - romsfile.REFSEC + 2 * DT], u, v, extra=dict(temp=temp), scale=scale, offsets=offs)
-    romsfile.write(W, tmp / "ocean.nc", gs, fs)
+    forcing_name = str(tmp / "ocean.nc")
+    if p.get("twofiles"):
+        # the sampled (symbolic) frame lives in the SECOND file, which has its own packing; the first file (frame at the
+        # start, zeros) is packed differently.  The harness steps to the second file's frame before sampling.
+        romsfile.write(W, tmp / "ocean.nc", gs)
+        fdims = dict(xi_rho=L, eta_rho=M, xi_u=L - 1, eta_u=M, xi_v=L, eta_v=M - 1, s_rho=N)
+        f1 = romsfile.forcing_vars([T0 - romsfile.REFSEC], [u[1]], [v[1]], extra=dict(temp=[temp[1]]), scale=dict(u=W.frac(1, 2), v=W.frac(1, 4), temp=W.frac(1, 8)), offsets=dict(u=0, v=0, temp=3))
+        f2 = romsfile.forcing_vars([T0 - romsfile.REFSEC + DT, T0 - romsfile.REFSEC + 3 * DT], u, v, extra=dict(temp=temp), scale=scale, offsets=offs)
+        W.nc_file(tmp / "f_000.nc", dict(f1[0], **fdims), f1[1])
+        W.nc_file(tmp / "f_001.nc", dict(f2[0], **fdims), f2[1])
+        forcing_name = str(tmp / "f_*.nc")
+    else:
+        fs = romsfile.forcing_vars([T0 - romsfile.REFSEC, T0 - romsfile.REFSEC + 2 * DT], u, v, extra=dict(temp=temp), scale=scale, offsets=offs)
+        romsfile.write(W, tmp / "ocean.nc", gs, fs)
     timer = tk.TimeKeeper(start=W.dt(T0), stop=W.dt(T0 + 2 * DT), dt=DT)
     grid = roms.Grid(filename=str(tmp / "ocean.nc"), subgrid=p["sub"])
     S = st.State(instance_variables=dict(temp=float), default_values=dict(temp=0))
     mods = dict(time=timer, grid=grid, state=S)
-    F = roms.Forcing(mods, str(tmp / "ocean.nc"), extra_forcing=["temp"])
+    F = roms.Forcing(mods, forcing_name, extra_forcing=["temp"])
     mods["forcing"] = F
     return roms, timer, grid, S, F, (u, v, temp), mask, (scale, offs)
 
@@ -170,6 +183,9 @@ def interp(W, p):
     S.append(X=x, Y=y, Z=zp)
     timer.update()
     F.update()
+    if p.get("twofiles"):
+        timer.update()  # step 1: the frame of the second file is in force
+        F.update()
     U, V = F.velocity(S.X, S.Y, S.Z)
     got_u, got_v = W.tolist(U)[idx], W.tolist(V)[idx]
     var_u, var_v = W.tolist(F.variables["u"])[idx], W.tolist(F.variables["v"])[idx]
@@ -257,6 +273,9 @@ def linear(W, p):
     S.append(X=x, Y=y, Z=zp)
     timer.update()
     F.update()
+    if p.get("twofiles"):
+        timer.update()  # step 1: the frame of the second file is in force
+        F.update()
     U, V = F.velocity(S.X, S.Y, S.Z)
     # clamp(-Z) to the level range
     d = -zp
